@@ -73,7 +73,7 @@ CLAIMED = {
         text='UNBOUNDED on a fragment: for every tree - any size, any depth - of plain paragraphs of one or more lines, ATX headings, fenced code blocks (` or ~, any length, any content), block quotes and single-item lists (all markers, padding 1-4; '
              'siblings separated by a blank line, two lists never adjacent siblings) the block tokenizer of the model returns on the spelled text exactly the pre-token tree '
              'written from the tree (kinds, nesting, start lines, list attributes, loose flags), and Document(lines) - whose depth fuel is proved sufficient for the fragment - holds exactly the token tree written from the tree for every renderer\'s token sets, and the HTML renderer model writes for it exactly the HTML written directly from the tree (CommonMark layout, tight items without <p>, escaped text), also for the text given as one string; a second unbounded fragment - tight nested bullet lists written one item per line, any size and depth - is proved the same way down to the HTML (paragraph interrupted by its sub-list, items ended by the next sibling marker); the proof composes the quote law, the list law, blank-line independence '
-             'and the plain-line theorem. Indented code blocks of any number of lines and any content, and setext headings (any number of plain lines, an underline of = or - of any length; at top level) are proved separately down to the HTML (C03_indented_code_block, C03_setext_heading). Beyond the fragment: kernel-checked on a finite family stated in the theorem (314 one-block trees with containers nested two deep '
+             'and the plain-line theorem. Indented code blocks of any number of lines and any content, and setext headings (any number of plain lines, an underline of = or - of any length; at top level) and thematic breaks (three or more - _ * of any length) are proved separately down to the HTML (C03_indented_code_block, C03_setext_heading, C03_thematic_break). Beyond the fragment: kernel-checked on a finite family stated in the theorem (314 one-block trees with containers nested two deep '
              'x 48 spellings, 4356 two-block trees x 6 spellings: fences, headings, breaks, tight lists) that the pipeline model renders the spelled text to exactly '
              'the HTML written from the tree; the full grammar (inlines, ordered/loose lists, tables, HTML blocks, definitions, lazy lines, indents, depth 4) is decided '
              'on the implementation by a tree-first generator with an independent HTML writer and CommonMark\'s normalisation; X-doc ties the model to the implementation.',
